@@ -86,11 +86,6 @@ UNITS = [
              ensures=KEEP + ADV, modifies=MOD,
              twins=[("never-an-error", "result[1] is None")], replay="native.c16:replay_parse"),
 
-    Contract(f"{P}:_parse_concatenation", ["C16", "C01", "C02"], specs=S, args={"cursor": cursor_builder()},
-             requires=["cursor_ok(cursor)"],
-             loops={1: Loop(invariants=INV, also_modifies=MOD), 2: Loop(invariants=[("nothing", "True")])},
-             ensures=KEEP, modifies=MOD,
-             twins=[("never-an-error", "result[1] is None")], replay="native.c16:replay_parse", max_paths=30000),
 
     Contract(f"{P}:_parse_union", ["C16", "C01"], specs=S, args={"cursor": cursor_builder()},
              requires=["cursor_ok(cursor)"],
@@ -105,3 +100,32 @@ UNITS = [
     Contract(f"{P}:parse", ["C16", "C01"], specs=S, args={"values": values_builder},
              twins=[("never-an-error", "result[1] is None")], replay="native.c16:replay_parse"),
 ]
+
+# _parse_concatenation: the loop body is verified in a case split over what the cursor points at when an
+# iteration starts (the cases are exhaustive: the last one is the negation of all others).  Each case is
+# one unit so that the cases run in parallel; only the last case also follows the loop's exit path.
+_LEADS = ["^", "$", ".", "(", "[^", "[", "*", "+", "?", "{"]
+_CASES = [("end-or-bar", "cursor.done() or cursor.peek_literal('|')")]
+for _l in _LEADS:
+    _cond = f"not cursor.done() and cursor.peek_literal({_l!r})"
+    if _l == "[":
+        _cond += " and not cursor.peek_literal('[^')"
+    _CASES.append((_l, _cond))
+_CASES.append(("anything-else", "not cursor.done() and not cursor.peek_literal('|') and "
+               + " and ".join(f"not cursor.peek_literal({_l!r})" for _l in _LEADS)))
+for _k, (_name, _cond) in enumerate(_CASES):
+    _lp = Loop(invariants=INV, also_modifies=MOD, elem_facts=[_cond])
+    _lp.skip_exit = _name != "anything-else"
+    _c = Contract(f"{P}:_parse_concatenation", ["C16", "C01", "C02"], specs=S, args={"cursor": cursor_builder()},
+                  name=f"_parse_concatenation[iteration starts at {_name}]",
+                  requires=["cursor_ok(cursor)"],
+                  loops={1: _lp, 2: Loop(invariants=[("nothing", "True")])},
+                  ensures=KEEP, modifies=MOD,
+                  twins=[("never-an-error", "result[1] is None")] if _name == "anything-else" else [],
+                  replay="native.c16:replay_parse", max_paths=30000)
+    _c.partial = _name != "anything-else"  # no path of a partial unit needs to reach the function's end
+    # the case that also covers entry + exit is the one callers see
+    if _name == "anything-else":
+        UNITS.insert(0, _c)
+    else:
+        UNITS.append(_c)
